@@ -203,20 +203,35 @@ def grep_forbidden():
     return hits
 
 
-def audit_axioms(pid, modules, theorems, timeout=1800):
-    """#print axioms for every obligation.  Returns (per-theorem dict name -> list|None, raw)."""
+def _run_audit_file(pid, text, timeout):
     path = os.path.join(LEAN, f".audit_{pid}_{os.getpid()}.lean")
     with open(path, "w") as f:
-        for m in modules:
-            f.write(f"import {m}\n")
-        for t in theorems:
-            f.write(f"#print axioms {t}\n")
+        f.write(text)
     try:
         with LakeLock():
             rc, out, err = run(["lake", "env", "lean", os.path.basename(path)], cwd=LEAN, timeout=timeout)
     finally:
         os.unlink(path)
-    text = out + "\n" + err
+    return rc, out + "\n" + err
+
+
+def audit_axioms(pid, modules, theorems, timeout=3000):
+    """Axioms of every obligation.  Fast path: ONE `#print axioms` on an aggregate theorem whose proof term mentions
+    every obligation (the union of their axioms; a subset of the allowed set for the union is one for each member).
+    Fallback (some name missing, or a foreign axiom in the union): one `#print axioms` per obligation."""
+    imports = "".join(f"import {m}\n" for m in modules)
+    agg = imports + "theorem verif_audit_all : True := by\n" + "".join(
+        f"  have h{i} := @{t}\n" for i, t in enumerate(theorems)) + "  trivial\n#print axioms verif_audit_all\n"
+    rc, text = _run_audit_file(pid, agg, timeout)
+    flat = re.sub(r"\s+", " ", text)
+    m = re.search(r"'verif_audit_all' depends on axioms: \[([^\]]*)\]", flat)
+    none = re.search(r"'verif_audit_all' does not depend on any axioms", flat)
+    if rc == 0 and (m or none):
+        union = [a.strip() for a in m.group(1).split(",") if a.strip()] if m else []
+        if set(union) <= ALLOWED_AXIOMS:
+            return {t: union for t in theorems}, text
+    per = imports + "".join(f"#print axioms {t}\n" for t in theorems)
+    rc, text = _run_audit_file(pid, per, timeout)
     res = {}
     flat = re.sub(r"\s+", " ", text)
     for t in theorems:
